@@ -36,6 +36,8 @@ TEXT = {
          "same as C01; functors log the address and type of the context they receive", "rapidcheck PBT, reference reduction order + identity/constness invariants over call sites", "5/C13"),
  "C14": ("exploration", "Generated grammars over instrumented value types (copyable and move-only builds); a global registry of live objects and per-value ids decide leaks, double destruction, duplication, reuse after move and copies, on success, failure and recovery paths. A library change that makes move-only nonterminal values stop compiling is reported as a violation (the copyable control build must still compile).",
          "same as C01; term payload copy inside term_value<T> is attributed to that class", "rapidcheck PBT, instrumented value type with live-object registry (history invariant)", "5/C14"),
+ "C15": ("exploration", "Generated call histories on one parser object, sequential and from 2..8 threads; results compared with isolated runs, byte image of the object compared after calls, and a ThreadSanitizer build as race oracle. Schedules are sampled, not enumerated.",
+         "same as C01; OS scheduler; TSan happens-before race detection", "rapidcheck stateful histories + byte-image invariant + ThreadSanitizer", "5/C15"),
  "C16": ("exploration", "Every input is parsed under all verbosity/stream combinations; results must agree and the verbose trace is replayed against the real table and the functor log of the same run.",
          "same as C01", "rapidcheck PBT, metamorphic (options) + trace replay invariant", "5/C16"),
 }
